@@ -50,12 +50,13 @@ package ledger
 // Not covered: inner-transaction callers, foreign/family box access, box sizes above 8,
 // box read/write budget exhaustion, MBR failures (accounts are rich), app update.
 //
-// Mutants shown DETECTED (bin/mut, quick tier): see the report / checks.d note:
-//   M1 applications.go DelBox: TotalBoxBytes decremented by len(value) only
-//   M2 appcow.go updateCounts: no decrement of the old type on a type change
-//   M3 appcow.go applyChild: counts not propagated from the child
+// Mutants, all DETECTED by the quick tier (bin/mut ... --only):
+//   M1 applications.go DelBox: TotalBoxBytes decremented by len(value) only          (1 step)
+//   M2 appcow.go updateCounts: `if bok {` -> `if bok && (!aok || bv.Type == av.Type) {`, i.e. no
+//      decrement of the old type on a type change     (put bytes, END-BLOCK, put uint, put bytes)
+//   M3 appcow.go applyChild: `lsd.counts = child.counts` removed                    (3 steps)
 //   M4 applications.go NewBox: TotalBoxBytes incremented by size only (name forgotten)
-//   M5 appcow.go checkCounts: bytes limit compared with `>` against maxCounts+1 (off by one)
+//   M5 appcow.go checkCounts: byte-slice limit `> maxCounts.NumByteSlice+1` (off by one, 2 steps)
 
 import (
 	"errors"
@@ -465,6 +466,7 @@ type c23explore struct {
 	ops      []c23op
 	onegroup bool
 	cuts     *c23cutCache
+	run      *ve.Run
 }
 
 type c23sys struct {
@@ -775,7 +777,10 @@ func (s *c23sys) apply(opi int) (bool, error) {
 		}
 		if err := s.endBlock(); err != nil {
 			if strings.HasPrefix(err.Error(), "harness:") {
-				panic(err.Error())
+				// infrastructure trouble (e.g. cannot open another in-memory ledger) is not a verdict
+				s.x.run.Note("INCONCLUSIVE %s: %v", s.e.name, err)
+				s.x.run.Capped()
+				return false, nil
 			}
 			return true, ve.Violationf("C23:end-block", "block of an accepted history could not be generated/validated/added: %v", err)
 		}
@@ -1193,6 +1198,7 @@ func TestVerif_C23(t *testing.T) {
 	for _, p := range plans {
 		p := p
 		p.x.cuts = &c23cutCache{m: map[string]*c23cut{}, max: 384}
+		p.x.run = r
 		q := &ve.Seq[*c23sys]{
 			Name:     p.name,
 			NumOps:   len(p.x.ops),
